@@ -138,6 +138,7 @@ pub struct Proc {
     pub dir: PathBuf,
     pub console_port: u16,
     pub grpc_port: u16,
+    pub http_port: u16,
     child: std::process::Child,
 }
 
@@ -163,7 +164,12 @@ pub fn spawn_server(root: &Path, idx: usize, attempt: usize) -> Result<Proc, Str
     }
     let dir = root.join(format!("s{}-{}", idx, attempt));
     std::fs::create_dir_all(dir.join("data")).map_err(|e| e.to_string())?;
-    let log = std::fs::File::create(dir.join("server.log")).map_err(|e| e.to_string())?;
+    spawn_on(dir, ports)
+}
+
+/// start the server on `dir` (created or left by an earlier run of the same server) with fixed ports
+pub fn spawn_on(dir: PathBuf, ports: Vec<u16>) -> Result<Proc, String> {
+    let log = std::fs::OpenOptions::new().create(true).append(true).open(dir.join("server.log")).map_err(|e| e.to_string())?;
     let log2 = log.try_clone().map_err(|e| e.to_string())?;
     // C18_SERVER_BIN: a server built from a patched copy of the snapshot (mutant runs)
     let bin = std::env::var("C18_SERVER_BIN").unwrap_or_else(|_| SERVER_BIN.to_string());
@@ -201,7 +207,7 @@ pub fn spawn_server(root: &Path, idx: usize, attempt: usize) -> Result<Proc, Str
     let child = cmd.spawn().map_err(|e| format!("spawn {}: {}", bin, e))?;
     let pid = child.id() as i32;
     CHILD_PIDS.lock().unwrap().push(pid);
-    Ok(Proc { pid, dir, console_port: ports[2], grpc_port: ports[1], child })
+    Ok(Proc { pid, dir, console_port: ports[2], grpc_port: ports[1], http_port: ports[0], child })
 }
 
 impl Proc {
@@ -217,6 +223,20 @@ impl Proc {
             g.retain(|p| *p != self.pid);
         }
         std::fs::remove_dir_all(&self.dir).ok();
+    }
+    /// kill -9 and start again on the same data directory and ports (main thread only, as spawn_server)
+    pub fn restart_in_place(&mut self) -> Result<(), String> {
+        unsafe {
+            libc::kill(self.pid, libc::SIGKILL);
+        }
+        let _ = self.child.wait();
+        if let Ok(mut g) = CHILD_PIDS.lock() {
+            g.retain(|p| *p != self.pid);
+        }
+        let _ = std::fs::rename(self.dir.join("server.log"), self.dir.join("server-before-restart.log"));
+        let n = spawn_on(self.dir.clone(), vec![self.http_port, self.grpc_port, self.console_port])?;
+        *self = n;
+        Ok(())
     }
     pub fn log_tail(&self) -> String {
         let s = std::fs::read_to_string(self.dir.join("server.log")).unwrap_or_default();
